@@ -6,7 +6,9 @@ A  theorems in Props/C24: plain tally exact (mutations_edge = the edge above the
    of the order of equal-position mutations, equal to mutation_span_array under tskit's `mut.edge` contract;
    size-biased variant: mutations_edge exact, nodes_samples = number of mask nodes below each node in the
    current forest, every mutation weighted by the number of mask nodes below its node at its position (any
-   mask = custom sample sets), no impossible state.  Size-biased span weights and blocks: not a theorem.
+   mask = custom sample sets), every unit of span by the number of mask nodes below the edge's child in
+   that local tree (integral over any partition containing the edge end points), no impossible state.
+   Singleton blocks: not a theorem (other cluster).
 B  Lean model at Float vs the real `_count_mutations` kernel, bit-for-bit, plain and size-biased, default and
    custom sample masks, tskit's indexes and tie-shuffled valid indexes; the executable specifications
    `specEdge` / `samplesBelow` vs tskit's `mut.edge` / a count over tskit's tree.
@@ -20,7 +22,7 @@ from .. import common, dating, gen, sweep_corr as sc
 from ..common import Result, Violation
 
 META = dict(
-    level='Lean theorems, for all valid edge tables/indexes/mutation tables: `_count_mutations` (plain) terminates and puts every mutation on the edge above its node at its position (NULL above roots), per-edge counts equal the direct tally, spans equal right-left, result independent of the sample mask and of the visiting order of equal-position mutations, equal to `mutation_span_array` under the tskit mut.edge contract; size-biased variant (any sample mask, node times with parents older than children): `mutations_edge` exact, `nodes_samples[u]` = number of mask nodes at or below u in the current forest, each mutation weighted by the number of mask nodes below its node in the local tree at its position, walk to the root never fails. Partial: the size-biased span weights and the singleton blocks are not theorems - the size-biased model is tied bit-for-bit to the kernel and both are checked against naive per-tree tallies by the oracle only.',
+    level='Lean theorems, for all valid edge tables/indexes/mutation tables: `_count_mutations` (plain) terminates and puts every mutation on the edge above its node at its position (NULL above roots), per-edge counts equal the direct tally, spans equal right-left, result independent of the sample mask and of the visiting order of equal-position mutations, equal to `mutation_span_array` under the tskit mut.edge contract; size-biased variant (any sample mask, node times with parents older than children): `mutations_edge` exact, `nodes_samples[u]` = number of mask nodes at or below u in the current forest, each mutation weighted by the number of mask nodes below its node in the local tree at its position, edges_span = integral over the edge of the number of mask nodes below its child (over any break-point list containing the edge end points), walk to the root never fails. Full for the kernel `_count_mutations` and `mutation_span_array`; partial for the property: the singleton-block clause (`_block_singletons`, modelled by the C22/C23 cluster) is covered here only by the naive per-tree oracle; wrappers (`count_mutations`, ExpectationPropagation wiring) by oracle.',
     note='Lean kernel + {propext, Classical.choice, Quot.sound}; sampled bit-exact correspondence; tskit indexes checked per input; exact-arithmetic spans',
     technique='loop-invariant rule for the shared insertion/removal sweep + bit-exact model/implementation correspondence + per-tree oracle',
     ref='§3 C24',
@@ -30,7 +32,7 @@ LEAN_BUILD = ["TsdateVerif.Model.Proto", "TsdateVerif.Model.CountMut", "TsdateVe
 ASSUMPTIONS = [
     "tskit's insertion/removal indexes are checked per input (validB), not assumed; tskit's mut.edge and tree iterator are taken by contract in the oracle",
     "theorems are over an ordered field (span = right-left exactly); the Float model is compared bit-for-bit with numba",
-    "size-biased span weights and singleton blocks are covered by correspondence/oracle only",
+    "singleton blocks are covered by the per-tree oracle only (their model belongs to C22/C23)",
     "size-biased theorems assume node times with every edge's parent strictly older than its child (timesOkB, checked per input)",
 ]
 
@@ -88,8 +90,9 @@ def kernel_cases(ctx, n_inputs, stream, res, stats):
                 mname = "custom-" + mname
             shuffled = bool(rng.random() < 0.3)
             tb = sc.shuffle_ties(rng, tb0) if shuffled else tb0
+            want = bool(sb) and sc.span_table_cost(tb) <= 9000
             items.append((ts, tb, mask, mname, sb, shuffled, info))
-            text.append(sc.encode_count(len(items) - 1, tb, mask, sb))
+            text.append(sc.encode_count(len(items) - 1, tb, mask, sb, wantspan=want))
     model = sc.run_model("".join(text))
     tskit_edge_cache = {}
     for i, (ts, tb, mask, mname, sb, shuffled, info) in enumerate(items):
@@ -104,7 +107,7 @@ def kernel_cases(ctx, n_inputs, stream, res, stats):
         if m is None:
             res.corr_failures.append(Violation("count-model-bad-op", f"Lean model rejected a tskit input ({variant})", replay, "B"))
         else:
-            for j, nm in enumerate(("valid", "no_overlap", "nodes_below", "muts_ok", "times_ok")):
+            for j, nm in enumerate(("valid", "no_overlap", "nodes_below", "muts_ok", "times_ok", "partition_ok")):
                 stats["hyp"][nm] += int(m["flags"][j] == "1")
             stats["hyp"]["n"] += 1
             same_me = np.array_equal(np.asarray(me, dtype=np.int64), m["mut_edge"])
@@ -122,6 +125,14 @@ def kernel_cases(ctx, n_inputs, stream, res, stats):
             if not np.array_equal(m["spec_edge"], tskit_edge_cache[key]):
                 res.corr_failures.append(Violation("spec-edge-differs-from-tskit",
                                                    "the model's specEdge differs from tskit's mut.edge", replay, "B"))
+            if m["span_weights"] is not None:
+                stats["span_spec_checked"] += 1
+                ss = sc.spec_spans(tb, m["span_weights"])
+                if not sc.close_spans(st[:, 1], ss, tb["L"], sc.integer_coords(tb)):
+                    res.corr_failures.append(Violation(
+                        "spec-span-differs-from-kernel",
+                        "size-biased edges_span differs from the specified integral of samplesBelow over tskit's "
+                        "breakpoints (model's weight table)", replay, "B"))
             if sb and not np.array_equal(m["spec_weight"], sc.naive_mut_weights(ts, mask)):
                 res.corr_failures.append(Violation("spec-weight-differs-from-tree-count",
                                                    "the model's samplesBelow differs from counting mask nodes below the "
@@ -263,7 +274,8 @@ def ep_case(rng, res, stats):
 
 
 def _stats():
-    return dict(fired={}, variants={}, hyp=dict(valid=0, no_overlap=0, nodes_below=0, muts_ok=0, times_ok=0, n=0),
+    return dict(fired={}, variants={}, hyp=dict(valid=0, no_overlap=0, nodes_below=0, muts_ok=0, times_ok=0, partition_ok=0, n=0),
+                span_spec_checked=0,
                 nontrivial_root_or_multiedge=0, blocks=0, blocks_cases=0, blocks_raised={}, ep_ok=0, ep_raised={})
 
 
@@ -288,7 +300,7 @@ def run(ctx):
                 "(kernel cases), or >= 2 blocks over > 1 tree (block cases); distinct by hash of the input.")
     h = stats["hyp"]
     res.extra = dict(input_distribution=stats,
-                     hypothesis_hit_rates={k: f"{h[k]}/{h['n']}" for k in ("valid", "no_overlap", "nodes_below", "muts_ok", "times_ok")})
+                     hypothesis_hit_rates={k: f"{h[k]}/{h['n']}" for k in ("valid", "no_overlap", "nodes_below", "muts_ok", "times_ok", "partition_ok")})
     return res
 
 
@@ -335,7 +347,7 @@ def replay(ctx, payload):
     mask = np.array(d["mask"], dtype=bool)
     sb = bool(d["sb"])
     st, me = sc.impl_count_raw(tb, mask, sb)
-    m = sc.run_model(sc.encode_count(0, tb, mask, sb)).get(0)
+    m = sc.run_model(sc.encode_count(0, tb, mask, sb, wantspan=bool(sb))).get(0)
     em, sp, nme = sc.naive_tallies(ts, mask, sb)
     print("implementation: mutations_edge", list(map(int, me)))
     print("                edges_mutations", st[:, 0].tolist(), "\n                edges_span", st[:, 1].tolist())
